@@ -197,19 +197,36 @@ class Modifies:
                     if gen.ifs:
                         rc = conj(rc, *[it.truth(it.eval(c, env2)) for c in gen.ifs])
                 else:
-                    # l.dest.vals[...] for l in self.outlinks: exists an element with that receiver
-                    raise Unsupported("modifies through a derived receiver needs a witness function")
-            ic = True
-            if sub is not None and idx:
-                if kind == "a1":
-                    ic = self._idx_cond(sub, idx[0], env2)
-                elif kind == "a2":
-                    if isinstance(sub, ast.Tuple):
-                        ic = conj(self._idx_cond(sub.elts[0], idx[0], env2), self._idx_cond(sub.elts[1], idx[1], env2))
-                    else:
-                        ic = self._idx_cond(sub, idx[0], env2)
-            alts.append(conj(rc, ic))
+                    # l.dest.vals[...] for l in self.outlinks: exists an element with that receiver -- decided element by
+                    # element when the precondition fixes the length of the list (`unroll_max`)
+                    c = it.forced_length(seq)
+                    if c is None:
+                        raise Unsupported("modifies through a derived receiver needs a list of fixed length (unroll_max)")
+                    for i in range(c):
+                        env2 = dict(self.env)
+                        it.assign_target(gen.target, it.seq_elem(seq, z3.IntVal(i)), env2)
+                        recv = it.eval(e.value, env2)
+                        if it.fq(recv, e.attr) != field:
+                            continue
+                        rc = core.ref_eq(r, recv.ref)
+                        if gen.ifs:
+                            rc = conj(rc, *[it.truth(it.eval(cnd, env2)) for cnd in gen.ifs])
+                        alts.append(conj(rc, self._sub_cond(kind, sub, idx, env2)))
+                    continue
+            alts.append(conj(rc, self._sub_cond(kind, sub, idx, env2)))
         return disj(*alts)
+
+    def _sub_cond(self, kind, sub, idx, env2):
+        ic = True
+        if sub is not None and idx:
+            if kind == "a1":
+                ic = self._idx_cond(sub, idx[0], env2)
+            elif kind == "a2":
+                if isinstance(sub, ast.Tuple):
+                    ic = conj(self._idx_cond(sub.elts[0], idx[0], env2), self._idx_cond(sub.elts[1], idx[1], env2))
+                else:
+                    ic = self._idx_cond(sub, idx[0], env2)
+        return ic
 
     def _idx_cond(self, sub, i, env):
         if isinstance(sub, ast.Slice):
@@ -237,6 +254,9 @@ class FunctionReport:
 
 def verify_function(qualname, contract, schema, timeout_ms=10000, contracts=None, only=None):
     t0 = time.time()
+    # side-proof caches are keyed on z3 term ids, which are only stable while the terms are alive: one function, one cache
+    _side_cache.clear()
+    _side_timeouts.clear()
     if contract.get("schema_override"):
         # a contract may narrow the class sets of fields (a stronger type invariant in its precondition)
         schema = {k: (dict(v) if isinstance(v, dict) else v) for k, v in schema.items()}
@@ -298,6 +318,7 @@ def verify_function(qualname, contract, schema, timeout_ms=10000, contracts=None
             env.update(contract["make_env"](it))  # contract-built pre-state (objects of concrete shape with symbolic contents)
         it.expr_stubs = contract.get("stubs")
         it.call_stubs = contract.get("call_stubs")
+        it.unroll_max = contract.get("unroll_max")
         it.ghost_env = env
         it.func_stack.append(fi.qualname)
         # requires
@@ -491,12 +512,71 @@ def _solver(timeout_ms):
     return s
 
 
+def _k_bound(c):
+    """conjunct of an atom guard that bounds the canonical index by a term free of it: ('ub', U) for K < U, ('lb', L) for K >= L"""
+    K = sums.K
+    flip = False
+    while z3.is_not(c):
+        c = c.arg(0)
+        flip = not flip
+    kind = c.decl().kind()
+    if kind not in (z3.Z3_OP_LE, z3.Z3_OP_GE, z3.Z3_OP_LT, z3.Z3_OP_GT):
+        return None
+    a, b = c.children()
+    if not z3.is_int(a):
+        return None
+    if a.eq(K) and not core.contains(b, K):
+        res = {z3.Z3_OP_LE: ("ub", b + 1), z3.Z3_OP_LT: ("ub", b), z3.Z3_OP_GE: ("lb", b), z3.Z3_OP_GT: ("lb", b + 1)}[kind]
+    elif b.eq(K) and not core.contains(a, K):
+        res = {z3.Z3_OP_LE: ("lb", a), z3.Z3_OP_LT: ("lb", a + 1), z3.Z3_OP_GE: ("ub", a + 1), z3.Z3_OP_GT: ("ub", a)}[kind]
+    else:
+        return None
+    if flip:
+        res = ("lb" if res[0] == "ub" else "ub", res[1])
+    return res
+
+
+def range_split_facts(apps):
+    """lemma sum_range_upper / sum_range_lower (pyvc.lemmas): for a prefix sum whose guard bounds the index by a term p free
+    of it,   A_{G and K<p}(j) = A_G(min(j, max(p,0)))   and   A_{G and K>=p}(j) = A_G(j) - A_G(min(j, max(p,0)))   for j >= 0"""
+    facts, terms = [], []
+    for atom, j, args, term in apps:
+        if atom.guard is True:
+            continue
+        args = list(args)
+        conjs = sums._conjuncts(atom.guard_at(sums.K, args))
+        for n, c in enumerate(conjs):
+            b = _k_bound(c)
+            if b is None:
+                continue
+            rest = conjs[:n] + conjs[n + 1:]
+            g2 = True if not rest else (z3.And(rest) if len(rest) > 1 else rest[0])
+            a2, actual2 = sums.get_atom(g2, atom.term_at(sums.K, args))
+            app2 = (lambda x: z3.ToReal(x)) if a2.key == "T ? 1.0" else (lambda x, a2=a2, actual2=actual2: a2.app(x, actual2))
+            kind, B = b
+            B = z3.simplify(B)
+            m = z3.If(B <= 0, z3.IntVal(0), z3.If(B <= j, B, j))
+            if kind == "ub":
+                facts.append(z3.Implies(j >= 0, term == app2(m)))
+            else:
+                facts.append(z3.Implies(j >= 0, term == app2(j) - app2(m)))
+                terms.append(app2(j))
+            terms.append(app2(m))
+            break
+    return facts, terms
+
+
 def lemma_facts(assumptions, goal, index_terms, qfacts, timeout_ms, rep=None, depth=0, only_terms=None):
     """instances of the sum lemmas justified under `assumptions` (side conditions proved for a fresh k)"""
     facts = []
     apps = sums.atom_apps(list(only_terms) if only_terms is not None else (list(assumptions) + [goal]))
     if not apps:
         return facts
+    rfacts, rterms = range_split_facts(apps)
+    if rfacts:
+        facts += rfacts
+        seen_ids = {t.get_id() for _, _, _, t in apps}
+        apps += [x for x in sums.atom_apps(rterms) if x[3].get_id() not in seen_ids]
     groups = {}
     for atom, j, args, term in apps:
         key = (atom.key, tuple(a.get_id() for a in args))
@@ -613,9 +693,15 @@ class _BaseSolver:
             s.add(*self.extra)
             s.add(z3.Not(goal))
             s.add(*core.list_axiom_instances(self.extra + [goal]))
-            return s.check() == z3.unsat
+            r = s.check()
+            self.last_unknown = r == z3.unknown
+            owner.last_unknown = self.last_unknown
+            return r == z3.unsat
         finally:
             s.pop()
+
+
+_side_timeouts = set()
 
 
 def _valid(hyps, goal, timeout_ms, rep=None, key=None):
@@ -629,11 +715,15 @@ def _valid(hyps, goal, timeout_ms, rep=None, key=None):
                     return True
                 if not res and prev_ids == ids:
                     return False
+            if key[:-1] in _side_timeouts:
+                return False  # the same claim already ran into the side-proof budget on another path: not tried again
         if rep is not None:
             rep.lemma_side_proofs += 1
         res = hyps.check_valid(goal)
         if key is not None:
             _side_cache.setdefault(key[:-1], []).append((ids, res))
+            if not res and getattr(hyps, "last_unknown", False):
+                _side_timeouts.add(key[:-1])
         return res
     ids = None
     if key is not None:
